@@ -28,4 +28,4 @@ CLAIMED = ["C16","C17","C27","C28","C23","C21","C01","C02","C03","C04","C05","C0
 NOT_APPLICABLE = {}
 
 # commits in /repo that add build-tag-guarded hooks
-HOOK_COMMITS = ["2157c173b", "bea10735e", "3871ec8a6", "71a14c54a", "f97bff611", "b3868e33b", "1b21a09a1", "490895d28"]
+HOOK_COMMITS = ["6643bec5b", "2157c173b", "bea10735e", "3871ec8a6", "71a14c54a", "f97bff611", "b3868e33b", "1b21a09a1", "490895d28"]
